@@ -60,12 +60,10 @@ def verify_all_dependencies_exist(phases, errors):
     :arg phases: A map from phase names to phases
     :arg errors: An error list to which new errors get appended
     """
-    ids = {inst.id
-            for phase in phases.values()
-            for inst in phase.statements}
-
     # Check statements
     for phase in phases.values():
+        # Dependencies are resolved among the statements of the same phase.
+        ids = {inst.id for inst in phase.statements}
         for inst in phase.statements:
             deps = set(inst.depends_on)
             if not deps <= ids:
@@ -75,6 +73,7 @@ def verify_all_dependencies_exist(phases, errors):
 
     # Check phases.
     for phase_name, phase in phases.items():
+        ids = {inst.id for inst in phase.statements}
         deps = set(phase.depends_on)
         if not deps <= ids:
             errors.extend(
